@@ -15,7 +15,7 @@ PROPERTY = "C04"
 LEVEL = "exploration"
 NEED_EXT = True
 REQUIRED = ["rows.single", "rows.subset", "rows.permutation", "rows.repeat", "state.unchanged", "pickle",
-            "clone_with_fitted_parameters", "exception.balanced_predictions", "asan.criterion_copy", "accessors.pure", "rows.buffer_refilled_in_place", "poisoned_allocator"]
+            "clone_with_fitted_parameters", "exception.balanced_predictions", "asan.criterion_copy", "accessors.pure", "rows.buffer_refilled_in_place", "poisoned_allocator", "upstream.rowwise_calls_judged"]
 RULE = ("every registered class with row-wise methods x configurations x label sets x batches made of training rows, "
         "perturbed rows, far rows (buckets / cells / leaves unseen at training time), exact duplicates and a single "
         "row; non-trivial = batch with >= 2 distinct rows routed to different buckets or classes; distinct = distinct "
@@ -42,6 +42,10 @@ def cases(tier, seed):
         out.append({"gen": "balanced", "id": "balanced-%d" % k, "sub": seed * 1009 + k})
     for k in range(3):
         out.append({"gen": "criterion", "id": "criterion-asan-%d" % k, "sub": seed * 1009 + k, "flavour": "asan"})
+    # upstream's own tests as a workload: every row-wise call they make on a registered class is judged
+    from vrt.props.c02 import UPSTREAM_QUICK, upstream_files
+    for f in upstream_files(UPSTREAM_QUICK[:6] if tier == "quick" else None):
+        out.append({"gen": "upstream", "id": "upstream-%s" % f.replace("/", "-"), "file": f})
     return out
 
 
@@ -64,7 +68,9 @@ def row_equal(a, b, integer):
                    or x == y for x, y in zip(a.ravel().tolist(), b.ravel().tolist()))
     if integer:
         return bool(numpy.array_equal(a, b))
-    return bool(numpy.allclose(a, b, rtol=1e-9, atol=1e-12, equal_nan=True))
+    # scikit-learn's expanded Euclidean distance and BLAS kernels round differently for different batch sizes
+    # (observed 6e-9 relative in KMeans.transform): that is not a dependence on the other rows' values
+    return bool(numpy.allclose(a, b, rtol=1e-7, atol=1e-9, equal_nan=True))
 
 
 def margins(spec, est, Q):
@@ -342,6 +348,111 @@ def run_balanced(case, ctx):
     ctx.excluded("documented exception: balanced prediction row differs from single-row prediction", dep)
 
 
+def run_upstream(case, ctx):
+    """One upstream test file run in-process; after every successful call of a row-wise method of a registered class
+    on a 2-D array, the same call is repeated, made on the first row alone, on a pickled copy and under the poisoned
+    allocator.  The tests' own verdicts are ignored."""
+    import io
+    import os
+    import contextlib
+    import pytest
+    import pandas
+    from vrt import kernel, registry, build_ext
+    from vrt.poison import Poison
+    from vrt.props.c01 import same_out
+    rowwise = {}
+    classes = []
+    for spec in registry.specs():
+        cls = type(spec.make(0))
+        rowwise[cls.__name__] = set(spec.rowwise)
+        for c in cls.__mro__:
+            if c.__module__.startswith("mlinsights.") and c not in classes:
+                classes.append(c)
+    methods = sorted({m for v in rowwise.values() for m in v})
+    seen = {"calls": 0, "judged": 0}
+
+    def before(obj, name, args, kwargs):
+        return True
+
+    def after(obj, name, args, kwargs, token, res):
+        seen["calls"] += 1
+        if isinstance(res, BaseException) or name not in rowwise.get(type(obj).__name__, ()):
+            return
+        X = args[0] if args else kwargs.get("X")
+        if isinstance(X, pandas.DataFrame) or not isinstance(X, numpy.ndarray) or X.ndim != 2 or len(X) < 2:
+            return
+        if getattr(obj, "balanced_predictions", False):
+            return          # the documented exception
+        if len(args) > 1 or any(k != "X" for k in kwargs):
+            return
+        K = "C04/%s/" % type(obj).__name__
+        cfg = {"class": type(obj).__name__, "method": name, "test_file": case["file"], "rows": int(len(X))}
+        try:
+            ref = numpy.asarray(res.todense()) if hasattr(res, "todense") else numpy.asarray(res)
+            if ref.shape[:1] != (len(X),):
+                return
+            f = getattr(obj, name)
+            seen["judged"] += 1
+            ctx.hit("upstream.rowwise_calls_judged")
+            again = f(X)
+            again = numpy.asarray(again.todense()) if hasattr(again, "todense") else numpy.asarray(again)
+            if not same_out(ref, again):
+                ctx.violation(K + "%s/repeated-call-differs/upstream" % name, "upstream test workload: the same call "
+                              "repeated gives another answer", cfg=cfg)
+                return
+            one = f(X[:1])
+            one = numpy.asarray(one.todense()) if hasattr(one, "todense") else numpy.asarray(one)
+            if len(one) != 1 or not same_out(ref[:1], one):
+                m_ = margins_simple(ref)
+                if m_ is None or m_[0] > 1e-9:
+                    ctx.violation(K + "%s/batch-dependent/alone/upstream" % name, "upstream test workload: the first "
+                                  "row alone is answered differently than inside its batch of %d rows" % len(X), cfg=cfg)
+                    return
+            mods = sorted({k.__module__ for k in type(obj).__mro__ if k.__module__.startswith("mlinsights")}
+                          | set(EXTRA_MODULES.get(type(obj).__name__, ())))
+            with Poison(mods):
+                pz = f(X)
+            pz = numpy.asarray(pz.todense()) if hasattr(pz, "todense") else numpy.asarray(pz)
+            if not same_out(ref, pz):
+                ctx.violation(K + "%s/reads-uninitialised-memory/upstream" % name, "upstream test workload: the answer "
+                              "changes under the poisoned allocator", cfg=cfg)
+                return
+            try:
+                cp = pickle.loads(pickle.dumps(obj))
+            except Exception:
+                return
+            pc = getattr(cp, name)(X)
+            pc = numpy.asarray(pc.todense()) if hasattr(pc, "todense") else numpy.asarray(pc)
+            if not same_out(ref, pc):
+                ctx.violation(K + "pickle/outputs-differ/upstream", "upstream test workload: %s of a pickled copy "
+                              "differs" % name, cfg=cfg)
+        except Exception as e:
+            ctx.excluded("upstream: follow-up call raised %s" % type(e).__name__)
+
+    n = kernel.install(classes, methods, before, after)
+    path = os.path.join(build_ext.repo_root(), "_unittests", case["file"])
+    try:
+        buf = io.StringIO()
+        with contextlib.redirect_stdout(buf), contextlib.redirect_stderr(buf):
+            rc = pytest.main(["-q", "-p", "no:cacheprovider", "--no-header", "-W", "ignore", path])
+    finally:
+        kernel.uninstall()
+    ctx.extra["upstream"] = {case["file"]: {"pytest_rc": int(rc), "monitored_calls": seen["calls"],
+                                            "judged": seen["judged"], "wrapped_methods": n}}
+    if seen["judged"]:
+        ctx.nontriv("upstream", case["file"])
+    ctx.cls("upstream-test-file")
+
+
+def margins_simple(ref):
+    """distance between the two best scores of each row for probability-like outputs, None otherwise"""
+    a = numpy.asarray(ref)
+    if a.ndim == 2 and a.shape[1] >= 2 and a.dtype.kind == "f":
+        srt = numpy.sort(a, axis=1)
+        return srt[:, -1] - srt[:, -2]
+    return None
+
+
 def run_criterion(case, ctx):
     import copy
     from mlinsights.mlmodel import _piecewise_tree_regression_common as cm
@@ -375,12 +486,18 @@ def run_criterion(case, ctx):
 
 
 def run_case(case, ctx):
-    {"rows": run_rows, "balanced": run_balanced, "criterion": run_criterion}[case["gen"]](case, ctx)
+    {"rows": run_rows, "balanced": run_balanced, "criterion": run_criterion, "upstream": run_upstream}[
+        case["gen"]](case, ctx)
 
 
 def summarize(extras, counters):
+    up = {}
+    for e in extras:
+        up.update(e.get("upstream", {}))
     return {"balanced_prediction_rows_that_depend_on_the_batch": int(sum(e.get("balanced_rows_batch_dependent", 0)
-                                                                         for e in extras))}
+                                                                         for e in extras)),
+            "poisoned_buffers_handed_out": int(sum(e.get("poisoned_buffers", 0) for e in extras)),
+            "upstream_test_files": up}
 
 
 def evaluations(counters, ncases):
